@@ -12,6 +12,8 @@ import (
 	"strconv"
 	"strings"
 	"sync"
+	"sync/atomic"
+	"time"
 
 	"github.com/tucats/ego/internal/builtins"
 	"github.com/tucats/ego/internal/cli/settings"
@@ -52,6 +54,35 @@ type Result struct {
 	Stack   string `json:"stack,omitempty"`
 	// Exit is set when the program called os.Exit / exit (ErrExit).
 	Exit bool `json:"exit,omitempty"`
+	// Runaway is set when the harness stopped the program because it had not
+	// ended within RunawayAfter (hook H7, Context.VerifStop): an in-process
+	// run that loops for ever would otherwise print until memory is gone.
+	// Checks report such a run as inconclusive, never as a verdict.
+	Runaway bool `json:"runaway,omitempty"`
+}
+
+// RunawayAfter bounds one in-process execution (wall clock). Generated
+// programs end in milliseconds; the bound is generous so that machine load
+// cannot trip it.
+var RunawayAfter = 150 * time.Second
+
+// RunawayGrowth bounds how much the resident size of the process may grow
+// during one in-process execution.
+var RunawayGrowth int64 = 1 << 30
+
+// rssBytes reads the resident set size of this process from /proc.
+func rssBytes() int64 {
+	b, err := os.ReadFile("/proc/self/statm")
+	if err != nil {
+		return 0
+	}
+	f := strings.Fields(string(b))
+	if len(f) < 2 {
+		return 0
+	}
+	var pages int64
+	fmt.Sscan(f[1], &pages)
+	return pages * int64(os.Getpagesize())
 }
 
 // Failed reports whether the execution ended in any kind of error.
@@ -167,8 +198,39 @@ func RunWith(src string, cfg Config, h *Hooks) (res Result) {
 	if cfg.Sandbox {
 		ctx.Sandboxed(true)
 	}
+	finished := make(chan struct{})
+	var runaway atomic.Bool
+	go func() {
+		start, base := time.Now(), rssBytes()
+		tick := time.NewTicker(250 * time.Millisecond)
+		defer tick.Stop()
+		for {
+			select {
+			case <-finished:
+				return
+			case <-tick.C:
+				// the wall-clock bound, or the process has grown by more
+				// than RunawayGrowth since the run began (a loop that
+				// prints for ever fills the output buffer)
+				if time.Since(start) > RunawayAfter || rssBytes()-base > RunawayGrowth {
+					runaway.Store(true)
+					ctx.VerifStop()
+					return
+				}
+			}
+		}
+	}()
 	err = ctx.Run()
+	close(finished)
 	res.Stdout = ctx.GetOutput()
+	if runaway.Load() {
+		res.Runaway = true
+		res.RunErr = fmt.Sprintf("stopped by the harness: the program had not ended after %s or grew the process by more than %d MiB", RunawayAfter, RunawayGrowth>>20)
+		if len(res.Stdout) > 1<<16 {
+			res.Stdout = res.Stdout[:1<<16]
+		}
+		return res
+	}
 	if errors.Equals(err, errors.ErrStop) {
 		err = nil
 	}
